@@ -103,6 +103,18 @@ CHECKS = {
         note='Kill = os._exit in a forked child; shutil.copy replaced by a chunked copy so that a kill can fall inside it; fresh output directory.',
         technique='TLA+ storage protocol model checked with TLC + exhaustive crash-point enumeration of the real dumper validated by a TLC trace spec',
         design='6/C19', specs=['Dump.tla', 'DumpTrace.tla']),
+    'C09': dict(
+        level='model_checking',
+        text='DumpStats.tla models how a dumper keeps its counters (per-resource bytes/rows, package totals, stats; incoming descriptors that '
+             'already carry counters) and TLC checks StatsDescribeBytes, TotalsAreSums, StatsAgreeWithDescriptor (and that the historical '
+             'accumulate-onto-incoming variant violates them). TLC enumerates the configuration universe (MC_DumpCases: 6144 cases = format x '
+             'path/zip x 8 counter configurations x add_filehash_to_path x pretty_descriptor x fresh/second dumper/re-dump x 4 shapes x '
+             'ascii/multi-byte); each case (quick: ~600 covering every counters x incoming x filehash x target x format combination) is dumped '
+             'for real twice, the harness measures every written file (size, md5, data rows, inside the zip too) and TLC evaluates the C09 '
+             'clauses on (recorded, measured) and replays the model on the measured sizes.',
+        note='Known finding C09-stats-bytes-include-descriptor (stats bytes = written total + size of datapackage.json) is matched by its own deviation formula only. Three genuine defects were repaired (fix: commits).',
+        technique='TLA+ counter model checked with TLC; TLC-enumerated configurations replayed on the real dumpers; recorded vs measured facts validated by a TLC trace spec',
+        design='6/C09', specs=['DumpStats.tla', 'MC_DumpCases.tla', 'DumpStatsTrace.tla']),
 }
 
 NOT_YET = 'check not built yet (build in progress, see DESIGN.md section 10)'
